@@ -200,9 +200,10 @@ class Executor:
         self.on_block = None
         self.obligation_hook = None
         self.unwind_is_finding = True
+        self.unknown_feasible = False
 
     # ------------------------------------------------------------------ solver
-    def check(self, conds):
+    def check(self, conds, want_model=False):
         import time
         t = time.time()
         self.solver.push()
@@ -214,6 +215,11 @@ class Executor:
         self.solver.pop()
         self.stats['solver_time'] += time.time() - t
         if r == z3.unknown:
+            if self.unknown_feasible and not want_model:
+                # branch feasibility only: exploring a possibly infeasible path is sound (it can only add spurious
+                # counterexamples, which are replayed), silently dropping a feasible one would not be
+                self.stats['unknown_as_feasible'] = self.stats.get('unknown_as_feasible', 0) + 1
+                return True, None
             raise Inconclusive('solver returned unknown: ' + self.solver.reason_unknown())
         return r == z3.sat, model
 
@@ -235,7 +241,7 @@ class Executor:
         """record a finding if `violated` is satisfiable on this path; then assume its negation."""
         v = z3.simplify(violated) if isinstance(violated, z3.ExprRef) else z3.BoolVal(bool(violated))
         if not z3.is_false(v):
-            ok, model = self.check(self.base + path.pc + [v])
+            ok, model = self.check(self.base + path.pc + [v], want_model=True)
             if ok:
                 f = Finding(kind, path.clone(), v, info)
                 f.model = model
@@ -988,7 +994,7 @@ class Executor:
             path.status = 'diverged'
             return [path]
         # local MIR function
-        name = self.resolve_local(callee)
+        name = self.resolve_local(callee, len(args))
         if name is not None and (self.inline is None or self.inline(name)):
             fn = self.m.get(name)
             fr = MirFrame(fn, next(self.fid))
@@ -1015,25 +1021,60 @@ class Executor:
                 raise MirUnsupported('contract outcome ' + kind)
         return res
 
-    def resolve_local(self, callee):
+    @staticmethod
+    def strip_generics(t):
+        out, depth = [], 0
+        i = 0
+        while i < len(t):
+            c = t[i]
+            if c == '<' and (i >= 2 and t[i - 2:i] == '::'):
+                # "::<...>" generic argument list: drop it together with the leading "::"
+                depth = 1
+                j = i + 1
+                while j < len(t) and depth:
+                    if t[j] == '<':
+                        depth += 1
+                    elif t[j] == '>' and t[j - 1] != '-':
+                        depth -= 1
+                    j += 1
+                del out[-2:]
+                i = j
+                continue
+            out.append(c)
+            i += 1
+        return ''.join(out)
+
+    def resolve_local(self, callee, nargs=None):
         if self.m.has(callee):
             return callee
-        # strip generic args on the last segment: foo::<T> -> foo
-        base = re.sub(r'::<[^<>]*(<[^<>]*>[^<>]*)*>$', '', callee)
+        base = self.strip_generics(callee)
         if self.m.has(base):
             return base
-        # `Type::method` printed without the impl path: unique suffix match
-        short = base.split('>::')[-1] if '>::' in base else base
-        seg = short.split('::')
+        if base.startswith('<'):
+            return None          # trait-qualified call: never resolved by name
+        seg = base.split('::')
         tail = '::' + seg[-1]
         hits = [n for n in self.m.index if n.endswith(tail) and self.m.headers[n].startswith('fn ')]
+        if nargs is not None:
+            hits = [n for n in hits if len(self.m.get(n).params) == nargs] if len(hits) < 40 else hits
         if len(seg) >= 2:
-            ty = re.sub(r'<.*', '', seg[-2]).strip('<> ')
-            hits2 = [n for n in hits if re.search(r'\b' + re.escape(ty) + r'\b', self.m.headers[n].split('(')[0]) or
-                     re.search(r'_1: &?(mut )?' + re.escape(ty) + r'\b', self.m.headers[n])]
+            ty = seg[-2]
+            rx = re.compile(r'\b' + re.escape(ty) + r'\b')
+            def mentions(n):
+                h = self.m.headers[n]
+                m1 = re.search(r'\(_1: ([^,)]*)', h)
+                ret = h.rsplit('->', 1)[-1] if '->' in h else ''
+                return bool((m1 and rx.search(m1.group(1))) or rx.search(ret) or rx.search(n))
+            hits2 = [n for n in hits if mentions(n)]
             if len(hits2) == 1:
                 return hits2[0]
-        if len(hits) == 1:
+            # prefer a method whose receiver type matches over one whose return type matches
+            hits3 = [n for n in hits2 if re.search(r'\(_1: &?(mut )?' + re.escape(ty) + r'\b', self.m.headers[n])]
+            if len(hits3) == 1:
+                return hits3[0]
+            if hits2:
+                return None
+        if len(hits) == 1 and len(seg) == 1:
             return hits[0]
         return None
 
